@@ -4,15 +4,18 @@
 (* print the key tables whose decorated variants (ids, shared columns, renamed and computed      *)
 (* keys, spellings, modes) the driver pushes through the real join / xor.                        *)
 EXTENDS Join, TLC, Json
-CONSTANTS MaxRows, Shape      \* Shape: "one" (key column a) | "two" (key columns a, b)
+CONSTANTS MaxRows, Shape      \* Shape: "one" (key column a) | "two" (key columns a, b) | "key" (key column a over abstract key cells)
 VARIABLES x, y, done
 
 D1 == <<"d", <<730120, 0, 0>>>>
 KeyU1 == {None, VInt(1), VFlt(1, 1), VInt(2), VFlt(5, 2), VNaN(1), VNaN(2), VStr("a"), D1}
 KeyU2 == {None, VInt(1), VFlt(1, 1), VNaN(1), VNaN(2)}
+\* abstract key cells (Join.tla): three key classes in two realisation slots each, next to None and a NaN object - the driver
+\* chooses the witnesses (2^53, 2^53 + 1, 2^53 + 2 as int / float / numpy scalars, ...); the law only needs the classes
+KeyUK == {<<"k", <<c, s>>>> : c \in 1..3, s \in {"A", "B"}} \cup {None, VNaN(1)}
 SeqsUpTo(S, n) == UNION {[1..k -> S] : k \in 0..n}
-RowU == IF Shape = "one" THEN [{"a"} -> KeyU1] ELSE [{"a", "b"} -> KeyU2]
-ColsOf == IF Shape = "one" THEN <<"a">> ELSE <<"a", "b">>
+RowU == IF Shape = "one" THEN [{"a"} -> KeyU1] ELSE IF Shape = "key" THEN [{"a"} -> KeyUK] ELSE [{"a", "b"} -> KeyU2]
+ColsOf == IF Shape = "two" THEN <<"a", "b">> ELSE <<"a">>
 Ks == [k \in 1..Len(ColsOf) |-> <<"col", ColsOf[k]>>]
 TableU == {[cols |-> ColsOf, rows |-> rs] : rs \in SeqsUpTo(RowU, MaxRows)}
 
@@ -32,4 +35,8 @@ ClassesOK == \A i \in 1..NRows(x), j \in 1..NRows(y), i2 \in 1..NRows(x) :
 \* the result rows carry the columns of both sides and the law-level rows are a bag of that size
 RowsOK == Len(JoinRows(x, y, Ks, Ks, "none")) = Cardinality(Pairs(x, y, Ks, Ks))
           /\ BagEq(JoinRows(x, y, Ks, Ks, "none"), JoinRows(x, y, Ks, Ks, "none"), KeyNames(Ks, Ks))
+\* abstract key cells: the realisation slot is invisible to the law - renaming every slot leaves the pairs as they are
+Reslot(t) == [t EXCEPT !.rows = [i \in 1..NRows(t) |-> [c \in DOMAIN t.rows[i] |->
+                 IF IsK(t.rows[i][c]) THEN <<"k", <<KClass(t.rows[i][c]), "A">>>> ELSE t.rows[i][c]]]]
+SlotInvisible == Pairs(Reslot(x), Reslot(y), Ks, Ks) = Pairs(x, y, Ks, Ks)
 =============================================================================
